@@ -871,7 +871,8 @@ PROPS = {
         "assumptions": ["module level: C07_module_is_jsx_free proves the model's whole transform JSX-free for every grammatical module (Spec/Plain.gram, re-checked on every parsed input of the run) with the resolveType hooks as hypotheses; those hypotheses are discharged when the option is off, with it on the census of the real output of each case covers the hooks"],
     },
     "C08": {
-        "gen": lambda seed, tier, start: gen_modules(seed, tier, start, 260, 6000) + gen_cases.gen_types_cases(seed, 160 if tier == "quick" else 3000, start + 10000),
+        "gen": lambda seed, tier, start: (lambda m: m + gen_modules(seed, tier, start + len(m), 260, 6000))(gen_cases.gen_matrix_cases(start))
+                                         + gen_cases.gen_types_cases(seed, 160 if tier == "quick" else 3000, start + 10000),
         "judge": judge_c08,
         "extra": c08_fresh_process_extra,
         "trusted": ["stack depth, wall-clock time and process-level nondeterminism cannot be exhibited by a Gallina model; they are covered by the harness's child-process runs only"],
